@@ -16,6 +16,7 @@ mod common;
 mod laws;
 mod limits;
 mod pairs;
+mod seqfam;
 mod textfam;
 mod wirefam;
 
@@ -56,6 +57,7 @@ fn boundary_names() -> Vec<Labels> {
         },
     ];
     let mut out: Vec<Labels> = shapes.iter().map(|s| limits::fill(s)).collect();
+    out.extend(limits::inline_boundary_shapes().iter().map(|s| limits::fill(s)));
     // arbitrary octets at full length
     out.push(vec![vec![0xff; 63], vec![0x00; 63], vec![b'.'; 63], vec![b'A'; 61]]);
     out
@@ -78,6 +80,8 @@ fn main() {
             "refbytes" => wirefam::replay_refbytes(&case, l),
             "text" => textfam::replay_text(&case, l),
             "origin" => textfam::replay_origin(&case, l),
+            "escape" => textfam::replay_escape(&case, l),
+            "sequence" => seqfam::replay_sequence(&case, l),
             "limit" | "limit-unicode" => limits::replay_limit(&case, l),
             "construct" => {
                 let r = name_from_json(&case["name"]);
@@ -105,7 +109,7 @@ fn main() {
          uncompressed, lowercase} through Name::emit and Name::read, judged by vref::wire::read_name + label identity incl. case \
          + cursor; hickory's decoder on reference-made literal and pointer encodings. text family: all host-style names (labels \
          over {a Z 0 _ .} with interior '-', 63-octet labels, leading '*' label) of 1..3 labels, absolute and relative: \
-         from_ascii(to_ascii(n)) identical octets, from_str(to_string(n)) == n. wire family also for every RELATIVE name of U2 (labels and case must come back; the decoded name is absolute). origin family: Name::parse(text, origin) for every host-style local name of 0..2 labels over {a Z 0 _a a_b a.b a-b x*63 * xn--zs9h} (absolute, relative, empty) and the free-standing '@' x 21 origin shapes (none, root, z., Z.a., relative-flag origins, *.z., odd octets, 127 labels, wire lengths 255..251 and 195): Ok results obey the limits, carry local++origin (resp. the origin for '@', the local name if absolute) and the absolute flag; 15 IDNA-looking host-style labels (valid/invalid punycode, upper-case prefix, 63 octets) x 3 positions x 2 flags through the text clauses. limit family: label-length vectors ({62,63,64}^0..4 \
+         from_ascii(to_ascii(n)) identical octets, from_str(to_string(n)) == n. wire family also for every RELATIVE name of U2 (labels and case must come back; the decoded name is absolute). origin family: Name::parse(text, origin) for every host-style local name of 0..2 labels over {a Z 0 _a a_b a.b a-b x*63 * xn--zs9h} (absolute, relative, empty) and the free-standing '@' x 21 origin shapes (none, root, z., Z.a., relative-flag origins, *.z., odd octets, 127 labels, wire lengths 255..251 and 195): Ok results obey the limits, carry local++origin (resp. the origin for '@', the local name if absolute) and the absolute flag; 15 IDNA-looking host-style labels (valid/invalid punycode, upper-case prefix, 63 octets) x 3 positions x 2 flags through the text clauses. sequence family: every triple of 13 names with all suffix/case relations x offsets {0,12,3ff8} x {compressed, uncompressed} and 7 long sequences (127 nested names, one name x130, case-alternating x130, 70 siblings + repeats, 125 distinct names twice, full-length names) through ONE encoder and ONE decoder, plus the same sequences compressed by an independent maximal compressor and decoded by hickory (rejections of the 127-nest reference form are observations). UB = names at the inline/heap storage boundary (31/32/33 label octets, 23/24/25 labels) with case-swapped, one-octet and wildcard variants through the pair, law, wire, text and limit families. escape family: every octet 0..255 at first/middle/last/only position of a label through to_ascii/to_utf8/Display and back (judged for host-style names, observations otherwise); hickory's parser on the reference presentation whenever its own printer differs. limit family: label-length vectors ({62,63,64}^0..4 \
          padded to wire totals 253..257, up to 128 labels, single labels up to 300) through from_labels, read (literal, pointer, \
          pointer chain), from_ascii/from_utf8/parse/from_str(+origin, escapes), append_label, prepend_label, append_name, \
          append_domain, into_wildcard, to_lowercase, base_name, trim_to: Err, or a name with every label 1..63 and wire length \
@@ -136,6 +140,24 @@ fn main() {
     let ul = pairs::universe(&ctx, both(names_over(&star_labels, 3)));
     pairs::run_pairs(&ctx, &ul, true, true, "ul_wildcard_shapes");
     pairs::run_unary_laws(&ctx, &ul);
+    // UB: names at the inline/heap boundary of Name's storage (31/32/33 label octets, 23/24/25
+    // labels), each with a case-swapped and a one-octet variant, absolute and relative
+    let mut ubn: Vec<Labels> = vec![];
+    for s in limits::inline_boundary_shapes() {
+        let base = limits::fill(&s);
+        ubn.push(vref::name::swap_case(&base));
+        let mut one = base.clone();
+        let last = one.len() - 1;
+        one[last][0] ^= 0x01;
+        ubn.push(one);
+        let mut wild = base.clone();
+        wild[0] = b"*".to_vec();
+        ubn.push(wild);
+        ubn.push(base);
+    }
+    let ub = pairs::universe(&ctx, both(ubn));
+    pairs::run_pairs(&ctx, &ub, true, true, "ub_inline_heap_boundary");
+    pairs::run_unary_laws(&ctx, &ub);
 
     if thorough {
         let l5 = labels_over(&SUB5, true);
@@ -194,7 +216,7 @@ fn main() {
 
     // relative names: emit writes the labels plus the root octet; the labels (incl. case) must come back
     {
-        let rels: Vec<(Labels, hickory_proto::rr::Name)> = u2.iter().filter(|e| !e.r.fqdn).map(|e| (e.r.labels.clone(), e.h.clone())).collect();
+        let rels: Vec<(Labels, hickory_proto::rr::Name)> = u2.iter().chain(ub.iter()).filter(|e| !e.r.fqdn).map(|e| (e.r.labels.clone(), e.h.clone())).collect();
         let scens = wirefam::scenarios();
         let od = Odometer::new(&[rels.len() as u64, wirefam::OFFSETS.len() as u64]);
         ctx.set("wire_relative_names", json!(rels.len()));
@@ -219,6 +241,31 @@ fn main() {
                 }
             },
         );
+    }
+    // ------------------------------------------------------------------ sequence family (one encoder, one decoder)
+    {
+        let ta = seqfam::triple_alphabet();
+        let k = ta.len() as u64;
+        let offs = [0usize, 12, 0x3ff8];
+        let od = Odometer::new(&[k, k, k, offs.len() as u64, 2]);
+        ctx.set("sequence_triples", json!(od.space()));
+        ctx.par_run(od.space(), 32, |i, l| {
+            let d = od.get(i);
+            let names = vec![ta[d[0] as usize].clone(), ta[d[1] as usize].clone(), ta[d[2] as usize].clone()];
+            seqfam::run_sequence("triple", &names, offs[d[3] as usize], d[4] == 0, true, l);
+            if i % 3001 == 17 {
+                l.sample(seqfam::seq_case_json("triple", &names, offs[d[3] as usize], d[4] == 0));
+            }
+        });
+        let longs = seqfam::long_sequences();
+        let loffs = [12usize, 0x3f00];
+        ctx.set("sequence_long", json!(longs.len() * loffs.len() * 2));
+        ctx.par_run((longs.len() * loffs.len() * 2) as u64, 1, |i, l| {
+            let i = i as usize;
+            let (kind, names, judge) = &longs[i / (loffs.len() * 2)];
+            let off = loffs[(i / 2) % loffs.len()];
+            seqfam::run_sequence(kind, names, off, i % 2 == 0, *judge, l);
+        });
     }
     ctx.set("wall_after_wire_s", json!(ctx.elapsed_s()));
     // ------------------------------------------------------------------ text family
@@ -332,6 +379,21 @@ fn main() {
             }
         });
     }
+    // escape family: every octet at every position of a label; names at the inline/heap boundary
+    ctx.par_run(256 * 4 * 2, 64, |i, l| {
+        textfam::run_escape_case((i % 256) as u8, ((i / 256) % 4) as usize, i / 1024 == 0, l);
+    });
+    ctx.with_local(|l| {
+        for s in limits::inline_boundary_shapes() {
+            for f in [true, false] {
+                textfam::run_text_case(&RefName::new(limits::fill(&s), f), true, l);
+                let mut dotted = limits::fill(&s);
+                let last = dotted.len() - 1;
+                dotted[last][0] = b'.';
+                textfam::run_text_case(&RefName::new(dotted, f), true, l);
+            }
+        }
+    });
     ctx.set("wall_after_text_s", json!(ctx.elapsed_s()));
     // ------------------------------------------------------------------ limit family
     {
@@ -354,6 +416,10 @@ fn main() {
         "wire:ok:pointer-emitted-high-offset",
         "wire:ok:no-pointer",
         "wire:ok:relative-name",
+        "seq:ok:pointers-emitted",
+        "seq:ok:no-pointer",
+        "seq:ok:more-than-120-names",
+        "seq:ok:reference-compressed",
         "law:unary:ok",
         "origin:ok:at:absolute-origin",
         "origin:ok:relative:absolute-origin",
@@ -361,6 +427,8 @@ fn main() {
         "origin:ok:absolute:absolute-origin",
         "origin:err:relative:absolute-origin",
         "text:idna-looking-label-case",
+        "escape:host:from_ascii-roundtrip-ok",
+        "escape:dot:from_ascii-roundtrip-ok",
         "law:unary:ok:wildcard",
         "law:pair:zone_of-true",
         "refbytes:ok:pointer",
